@@ -7,6 +7,9 @@
      relocated with the old copy overwritten), and
  (3) TLC judges every executed script with the reference semantics (Trace_Belt!StepsOk): concatenated
      outputs = one-shot value of the concatenated input, every Get = one-shot value of the prefix.
+ (4) message-level reuse (WBL / SDE / FMT: one Start, many whole-message StepE/StepD/StepD2/StepR calls):
+     spec/sm/MsgApi.tla is model-checked, its histories are replayed on one real state and every call is
+     judged by its own arguments (checks/msgs.py).
  Non-belt bundles (bash, brng, botp) are driven by the same scheme in checks of C03's driver: see run_other().
 """
 import os, json, glob, hashlib
@@ -124,11 +127,29 @@ def run(ctx):
             ctx.note_inconclusive("binding self-test failed: %d/%d rejected" % (len(bad), len(mut)))
     for row in rows[:1] + rows[len(rows) // 2:len(rows) // 2 + 1]:
         ev.sample({k: (v if not isinstance(v, list) or len(v) < 40 else v[:40] + ["..."]) for k, v in row.items()})
+    run_msgs(ctx, drv)
     run_other(ctx)
     ev.cov["exhaustive"] = False
     ev.assume("fragment scripts are exhaustive within the bounds of BOUNDS[tier] (fragments, total length, Get/Reloc marks) over the "
               "boundary alphabet {0,1,blk-1,blk,blk+1,2blk-1,2blk,2blk+1}; quick replays a seeded subset when a family exceeds its cap")
     ev.assume("one-shot values are the reference semantics of spec/ref (C01 ties them to the standard)")
+
+
+def run_msgs(ctx, drv):
+    """WBL / SDE / FMT: one Start, then whole-message calls (spec/sm/MsgApi.tla): histories of <= 3 calls
+    (quick: all of <= 2 calls and a seeded sample of the 3-call ones; thorough: all)."""
+    import msgs
+    hist, st, tr = msgs.gen_histories(ctx, 3, workers=4 if ctx.quick else 8)
+    ctx.ev.cov["states"] += st
+    ctx.ev.cov["transitions"] += tr
+    for b, ss in hist.items():
+        ctx.ev.cov["histories_" + b] = len(ss or [])
+    if ctx.quick:
+        hist = {b: msgs.pick(ss, 450, ctx.seed) for b, ss in hist.items() if ss}
+    n, d = msgs.run_histories(ctx, drv, hist)
+    ctx.ev.cov["message_history_calls_validated"] = n
+    ctx.ev.cov["message_histories_replayed"] = len(d)
+    ctx.ev.cov["traces_validated_against_impl"] += n
 
 
 def run_other(ctx):
